@@ -99,7 +99,7 @@ def gen(rng, kind):
         ev.append([t])
     subs = [{"after_ms": rng.choice([0, 0, 1, 2, 3, 6]), "yields": rng.randrange(0, 6), "unsub_after_ms": rng.choice([None, None, None, 1, 4])}
             for _ in range(rng.choice([1, 1, 2]))]
-    sc = {"mode": "th", "kind": kind, "events": ev, "subscribers": subs, "sched": th.gen_sched(rng, ks=(1, 2, 2, 3, 3))}
+    sc = {"mode": "th", "kind": kind, "events": ev, "subscribers": subs, "sched": th.gen_sched(rng, ks=(1, 2, 2, 3, 3), sweep_p=0.03)}
     if kind == "replay":
         sc["buffer_size"] = rng.choice([None, 1, 2])
     return sc
@@ -110,6 +110,8 @@ FOCUS = {"plain": ("subject.py", "innersubscription.py"), "behavior": ("behavior
 
 
 def execute(sc):
+    if sc["sched"].get("sweep") and "cps" not in sc:
+        return th.sweep(execute, sc)
     out = Outcome()
     holder = {}
 
